@@ -1393,6 +1393,9 @@ impl Simulation for C09Sim {
       Err(e) => bad(format!("harness error during replay: {e}")),
     }
   }
+  fn warm_up(&self) {
+    crate::selftest::warm_up();
+  }
   fn describe(&self) -> Describe {
     Describe {
       rule: "a case = (generated rule project; 1-3 document URIs incl. outside-workspace and unknown-extension ones; protocol-valid notification history of 2-14 messages: didOpen/didChange with unique versions incl. stale ones arriving late, didClose + re-open, didSave, codeAction, executeCommand; a transport script: byte chunking incl. mid-header/mid-body, bursts of up to 8 messages, output budgets incl. a stalled editor, and a reply policy per server request: now / after j messages / error / null). Checked: every publishDiagnostics carries a version the client sent and exactly the findings `sg scan --json` reports for that text at that path (rule id, range, message with note decoration, severity); the last publish of every open in-workspace document is its highest version; every client request is answered once; no self-deadlock on the document map; after EOF the server returns. non-trivial = the history has a change and >=2 publishes, or back-pressure occurred, or the server asked the client something; distinct = projected executor/transport event trace not seen before".into(),
